@@ -33,7 +33,16 @@ func TestMain(m *testing.M) {
 	vt.Main(m, rec)
 }
 
-var writeEntries = []string{"openfile-wronly", "openfile-rdwr", "openfile-wronly-create", "openfile-rdwr-create-trunc", "openfile-wronly-append", "create", "edit", "mutex", "transform", "write"}
+var writeEntries = []string{"openfile-wronly", "openfile-rdwr", "openfile-wronly-create", "openfile-rdwr-create-trunc", "openfile-wronly-append", "create", "edit", "mutex", "transform", "write", "mutex-shared"}
+
+// sharedMutexes holds one *lockedfile.Mutex per path for the whole process: the "mutex-shared" entry point locks that
+// value, so goroutines of one process queue on the same Mutex (and successive acquisitions reuse it).
+var sharedMutexes sync.Map
+
+func sharedMutex(path string) *lockedfile.Mutex {
+	m, _ := sharedMutexes.LoadOrStore(path, lockedfile.MutexAt(path))
+	return m.(*lockedfile.Mutex)
+}
 var readEntries = []string{"open", "openfile-rdonly", "read"}
 
 func isWrite(e string) bool {
@@ -78,6 +87,12 @@ func acquireFd(path, e string, inside func()) (release func() error, fd int, err
 		f, err = lockedfile.OpenFile(path, os.O_RDONLY, 0)
 	case "mutex":
 		unlock, err := lockedfile.MutexAt(path).Lock()
+		if err != nil {
+			return nil, -1, err
+		}
+		return func() error { unlock(); return nil }, -1, nil
+	case "mutex-shared":
+		unlock, err := sharedMutex(path).Lock()
 		if err != nil {
 			return nil, -1, err
 		}
